@@ -35,7 +35,7 @@ InitExt == [keep |-> {},
             procReg |-> {},       \* slice starts processed by ProcessRegionModBuf (nursery)
             synced |-> FALSE,     \* a collection has ended since the last Reset
             st |-> [slow |-> 0, fast |-> 0, region |-> 0, regionRemembered |-> 0, nurseryGCs |-> 0,
-                    fullGCs |-> 0, processed |-> 0, oldToYoung |-> 0]]
+                    fullGCs |-> 0, processed |-> 0, oldToYoung |-> 0, flushesOutsideGC |-> 0]]
 X == IF "unlog" \in DOMAIN ext THEN ext ELSE InitExt
 
 Pretenured(sem) == sem \in {1, 3, 4, 5, 6}     \* immortal, code, read-only, large code, non-moving
@@ -109,10 +109,15 @@ GRegionCopy(e) ==
     ELSE FailStep /\ UNCHANGED ext
 
 GFlush(e) ==
-    IF G("C05:flush-of-unremembered-object", X.synced => SeqSet(e.objs) \subseteq AddrsOf(X.rem))
-    THEN Skip /\ UNCHANGED ext ELSE FailStep /\ UNCHANGED ext
+    \* (a buffer that fills up is flushed inside the barrier, before the Write event of that write)
+    IF G("C05:flush-of-unremembered-object",
+         X.synced => SeqSet(e.objs) \subseteq AddrsOf(X.rem) \cup SeqSet(X.pendSlow))
+    \* flushes by the mutator thread (tag 1000): destroy_mutator or a full buffer
+    THEN Skip /\ ext' = IF e.th = 1000 THEN [X EXCEPT !.st = HBump("flushesOutsideGC")] ELSE X
+    ELSE FailStep /\ UNCHANGED ext
 GRegionFlush(e) ==
-    IF G("C05:flush-of-unremembered-slice", X.synced => SeqSet(e.starts) \subseteq X.regs)
+    IF G("C05:flush-of-unremembered-slice",
+         X.synced => SeqSet(e.starts) \subseteq X.regs \cup {X.pendReg[i].dst : i \in DOMAIN X.pendReg})
     THEN Skip /\ UNCHANGED ext ELSE FailStep /\ UNCHANGED ext
 
 GenGCEndOK(e) ==
